@@ -160,6 +160,16 @@ def pReadd (k idx : Nat) (ds : List Doc) : String :=
     | .error e => e
     | .ok s => "ok " ++ under (sexp base) ++ " " ++ under (sexp s)
 
+/-- mirror of the harness' `p_reorder` (the runtime instance of `readd_any`) -/
+def pReorder (ds : List Doc) : String :=
+  match fromSourcesDoc ds with
+  | .error _ => "skip"
+  | .ok base =>
+    let under (s : String) : String := String.ofList (s.toList.map fun c => if c == ' ' then '_' else c)
+    match fromSourcesDoc (ds ++ ds.reverse ++ ds ++ ds.take 1) with
+    | .error _ => "violated: from_sources failed on re-fed sources"
+    | .ok s => "ok " ++ under (sexp base) ++ " " ++ under (sexp s)
+
 /-- mirror of the harness' `p_cycle`: printed size of the shape of the group fed 2, 4, 8, 16 times -/
 def pCycle (ds : List Doc) : String :=
   let rep (m : Nat) : List Doc := (List.replicate m ds).flatten
@@ -481,6 +491,10 @@ def step (line : String) : String :=
   | "p_cycle" :: hs =>
       match docsOfHex hs with
       | some ds => pCycle ds
+      | none => "not-json"
+  | "p_reorder" :: hs =>
+      match docsOfHex hs with
+      | some ds => pReorder ds
       | none => "not-json"
   | ["p_keeps", s0, a, c] => withShape s0 fun s0 => withShape a fun a => withShape c fun c =>
       let m := merger a c
